@@ -346,7 +346,7 @@ example : keywordSearch IV.Gen.Matchers.table
     [[("fix-up path".toList, some "/a/b".toList)], [("fix-up path".toList, some "/c".toList)]] false
     [("fix_up_path__startswith".toList, "/a".toList)] = [[("fix-up path".toList, some "/a/b".toList)]] := by decide
 
-/-! ### keyword_search: which keyword names which heading -/
+/-! ### keyword_search: which keyword names which heading (table as built since fix 1e9b608) -/
 
 /-- the transformation in the code (`key.replace(' ', '_').replace('-', '_')`) is the documented one:
     only space and dash are written as '_', every other character — `%`, `/`, `.`, `(`, `:`, letters
@@ -355,102 +355,150 @@ theorem txKey_eq_kwOf (k : Str) : txKey k = kwOf k := txKey_eq_kwOf_aux k
 
 example : txKey "Use% (KB)/s-1".toList = "Use%_(KB)/s_1".toList := by decide
 
-/-- the keyword `kw` names the LAST heading, in the iteration order `keys` of the key set, whose
-    documented keyword is `kw` (so clashes are resolved by that order: hash order in CPython), and
-    no heading when there is none -/
+/-- the model's order is a total order on strings (Python's: code-point lexicographic) and `sortKeys`
+    sorts by it, keeping exactly the given keys -/
+theorem sortKeys_sorted (keys : List Str) :
+    (sortKeys keys).Pairwise (fun a b => strLe a b = true) ∧ (sortKeys keys).Perm keys ∧
+    (∀ a b : Str, strLe a b = true → strLe b a = true → a = b) ∧ (∀ a b : Str, (strLe a b || strLe b a) = true) :=
+  ⟨sortKeys_pairwise keys, sortKeys_perm keys, strLe_antisymm, strLe_total⟩
+
+/-- the table is a function of the key SET only: any two iteration orders of the set give the same
+    table (so the answer cannot depend on the hash seed) -/
+theorem txkeys_order_independent (keys₁ keys₂ : List Str) (h : keys₁.Perm keys₂) :
+    txKeysFix keys₁ = txKeysFix keys₂ :=
+  txKeysFix_perm keys₁ keys₂ h
+
+/-- which heading the keyword `kw` names: `kw` itself when it is a heading (and a keyword of the
+    table), otherwise the LAST heading in sorted order whose documented keyword is `kw`; none when no
+    heading has that keyword -/
 theorem keyword_names_heading (keys : List Str) (kw : Str) :
-    dictGet (txKeysOf keys) kw = keys.reverse.find? (fun k => kwOf k = kw) :=
-  txKeysOf_get keys kw
+    dictGet (txKeysFix keys) kw
+      = ((sortKeys keys).reverse.find? (fun k => kwOf k = kw)).map (fun h => if kw ∈ keys then kw else h) :=
+  txKeysFix_get keys kw
 
-/-- a heading with neither space nor dash is its own keyword, and it is always recognised: it names
-    a heading with that same keyword — the heading itself when no other heading clashes with it,
-    whatever the iteration order -/
-theorem exact_heading_recognised (keys : List Str) (h : Str) (hm : h ∈ keys) (h1 : ' ' ∉ h) (h2 : '-' ∉ h) :
-    kwOf h = h ∧ (∃ h', dictGet (txKeysOf keys) h = some h' ∧ kwOf h' = h) ∧
-    ((∀ k ∈ keys, kwOf k = h → k = h) → dictGet (txKeysOf keys) h = some h) := by
+/-- a heading with neither space nor dash is its own keyword and ALWAYS names itself — also when
+    other headings (`a b`, `a-b`) share the keyword -/
+theorem exact_heading_names_itself (keys : List Str) (h : Str) (hm : h ∈ keys) (h1 : ' ' ∉ h) (h2 : '-' ∉ h) :
+    kwOf h = h ∧ dictGet (txKeysFix keys) h = some h := by
   have e := kwOf_self h h1 h2
-  refine ⟨e, ?_, ?_⟩
-  · rw [keyword_names_heading]
-    cases hf : keys.reverse.find? (fun k => kwOf k = h) with
-    | none =>
-      have := List.find?_eq_none.mp hf h (by simpa using hm)
-      simp [e] at this
-    | some h' =>
-      refine ⟨h', rfl, ?_⟩
-      have := List.find?_some hf
-      simpa using this
-  · intro huniq
-    rw [keyword_names_heading]
-    cases hf : keys.reverse.find? (fun k => kwOf k = h) with
-    | none =>
-      have := List.find?_eq_none.mp hf h (by simpa using hm)
-      simp [e] at this
-    | some h' =>
-      have h3 : kwOf h' = h := by simpa using List.find?_some hf
-      have h4 : h' ∈ keys := by simpa using List.mem_of_find?_eq_some hf
-      rw [huniq h' h4 h3]
+  refine ⟨e, ?_⟩
+  rw [keyword_names_heading]
+  cases hf : (sortKeys keys).reverse.find? (fun k => kwOf k = h) with
+  | none =>
+    have hs : h ∈ (sortKeys keys).reverse := by simpa using (sortKeys_perm keys).mem_iff.mpr hm
+    have := List.find?_eq_none.mp hf h hs
+    simp [e] at this
+  | some h' => simp [hm]
 
-/-- in general the recognised keyword of a heading is `kwOf heading` -/
+/-- a keyword that is not itself a heading names the GREATEST heading, in code-point order, among those
+    whose documented keyword it is -/
+theorem translated_greatest_wins (keys : List Str) (kw h : Str) (hkw : kw ∉ keys)
+    (hg : dictGet (txKeysFix keys) kw = some h) :
+    h ∈ keys ∧ kwOf h = kw ∧ ∀ k ∈ keys, kwOf k = kw → strLe k h = true := by
+  rw [keyword_names_heading] at hg
+  cases hf : (sortKeys keys).reverse.find? (fun k => kwOf k = kw) with
+  | none => rw [hf] at hg; simp at hg
+  | some h' =>
+    rw [hf] at hg
+    simp only [Option.map_some, hkw, if_false, Option.some.injEq] at hg
+    subst hg
+    refine ⟨?_, ?_, ?_⟩
+    · have := List.mem_of_find?_eq_some hf
+      exact (sortKeys_perm keys).mem_iff.mp (by simpa using this)
+    · simpa using List.find?_some hf
+    · intro k hk hkk
+      exact last_found_is_greatest _ _ (sortKeys_pairwise keys) h' hf k ((sortKeys_perm keys).mem_iff.mpr hk) (by simpa using hkk)
+
+/-- every heading's documented keyword is recognised and names a heading with that keyword — the
+    heading itself when no other heading shares it -/
 theorem heading_keyword_recognised (keys : List Str) (h : Str) (hm : h ∈ keys) :
-    (∃ h', dictGet (txKeysOf keys) (kwOf h) = some h' ∧ kwOf h' = kwOf h) ∧
-    ((∀ k ∈ keys, kwOf k = kwOf h → k = h) → dictGet (txKeysOf keys) (kwOf h) = some h) := by
-  constructor
-  · rw [keyword_names_heading]
-    cases hf : keys.reverse.find? (fun k => kwOf k = kwOf h) with
-    | none =>
-      have := List.find?_eq_none.mp hf h (by simpa using hm)
-      simp at this
-    | some h' =>
-      refine ⟨h', rfl, ?_⟩
-      simpa using List.find?_some hf
-  · intro huniq
-    rw [keyword_names_heading]
-    cases hf : keys.reverse.find? (fun k => kwOf k = kwOf h) with
-    | none =>
-      have := List.find?_eq_none.mp hf h (by simpa using hm)
-      simp at this
-    | some h' =>
-      have h3 : kwOf h' = kwOf h := by simpa using List.find?_some hf
-      have h4 : h' ∈ keys := by simpa using List.mem_of_find?_eq_some hf
-      rw [huniq h' h4 h3]
+    (∃ h', dictGet (txKeysFix keys) (kwOf h) = some h' ∧ h' ∈ keys ∧ kwOf h' = kwOf h) ∧
+    ((∀ k ∈ keys, kwOf k = kwOf h → k = h) → dictGet (txKeysFix keys) (kwOf h) = some h) := by
+  have hs : h ∈ (sortKeys keys).reverse := by simpa using (sortKeys_perm keys).mem_iff.mpr hm
+  rw [keyword_names_heading]
+  cases hf : (sortKeys keys).reverse.find? (fun k => kwOf k = kwOf h) with
+  | none =>
+    have := List.find?_eq_none.mp hf h hs
+    simp at this
+  | some h' =>
+    have h3 : kwOf h' = kwOf h := by simpa using List.find?_some hf
+    have h4 : h' ∈ keys := (sortKeys_perm keys).mem_iff.mp (by simpa using List.mem_of_find?_eq_some hf)
+    constructor
+    · by_cases hk : kwOf h ∈ keys
+      · refine ⟨kwOf h, by simp [hk], hk, ?_⟩
+        -- a heading that is a keyword contains neither space nor dash: it is its own keyword
+        have : kwOf (kwOf h) = kwOf h := by
+          unfold kwOf
+          rw [List.map_map]
+          apply List.map_congr_left
+          intro c _
+          simp only [Function.comp]
+          by_cases c1 : c = ' '
+          · subst c1; decide
+          · by_cases c2 : c = '-'
+            · subst c2; decide
+            · simp [c1, c2]
+        exact this
+      · exact ⟨h', by simp [hk], h4, h3⟩
+    · intro huniq
+      have e : h' = h := huniq h' h4 h3
+      subst e
+      by_cases hk : kwOf h' ∈ keys
+      · have := huniq (kwOf h') hk (by
+          unfold kwOf
+          rw [List.map_map]
+          apply List.map_congr_left
+          intro c _
+          simp only [Function.comp]
+          by_cases c1 : c = ' '
+          · subst c1; decide
+          · by_cases c2 : c = '-'
+            · subst c2; decide
+            · simp [c1, c2])
+        simp [hk, this]
+      · simp [hk]
 
-example : dictGet (txKeysOf ["Use%".toList, "I/O".toList, "fix-up path".toList]) "Use%".toList = some "Use%".toList ∧
-    dictGet (txKeysOf ["Use%".toList, "I/O".toList, "fix-up path".toList]) "fix_up_path".toList = some "fix-up path".toList ∧
-    dictGet (txKeysOf ["Use%".toList, "I/O".toList, "fix-up path".toList]) "Use_".toList = none := by decide
+example : dictGet (txKeysFix ["a b".toList, "a_b".toList, "a-b".toList]) "a_b".toList = some "a_b".toList ∧
+    dictGet (txKeysFix ["a-b".toList, "a b".toList, "Use%".toList]) "a_b".toList = some "a-b".toList ∧
+    dictGet (txKeysFix ["a-b".toList, "a b".toList, "Use%".toList]) "Use%".toList = some "Use%".toList ∧
+    dictGet (txKeysFix ["a-b".toList, "a b".toList, "Use%".toList]) "Use_".toList = none := by decide
 
 /-- a keyword that is the documented keyword of no heading selects nothing -/
 theorem keyword_unknown_field_empty (table : List (Str × Matcher)) (keys : List Str) (rows : List Row)
     (kwargs : List (Str × Str)) (kw v : Str) (hm : (kw, v) ∈ kwargs)
     (hno : ∀ k ∈ keys, kwOf k ≠ (splitKeyword (table.map (·.1)) kw).1) :
-    keywordSearchTx table (txKeysOf keys) rows kwargs = [] := by
+    keywordSearchTx table (txKeysFix keys) rows kwargs = [] := by
   have hk : kwargs ≠ [] := by intro e; rw [e] at hm; simp at hm
   rw [keyword_search_tx_exact table _ rows kwargs hk]
   apply List.filter_eq_nil_iff.mpr
   intro row _
-  have hnone : dictGet (txKeysOf keys) (splitKeyword (table.map (·.1)) kw).1 = none := by
+  have hnone : dictGet (txKeysFix keys) (splitKeyword (table.map (·.1)) kw).1 = none := by
     rw [keyword_names_heading]
-    apply List.find?_eq_none.mpr
-    intro k hk'
-    have := hno k (by simpa using hk')
-    simpa using this
-  have : kwCond table (txKeysOf keys) row kw v = false := by simp [kwCond, hnone]
+    have : (sortKeys keys).reverse.find? (fun k => kwOf k = (splitKeyword (table.map (·.1)) kw).1) = none := by
+      apply List.find?_eq_none.mpr
+      intro k hk'
+      have := hno k ((sortKeys_perm keys).mem_iff.mp (by simpa using hk'))
+      simpa using this
+    rw [this]; rfl
+  have : kwCond table (txKeysFix keys) row kw v = false := by simp [kwCond, hnone]
   intro hall
   have := List.all_eq_true.mp hall (kw, v) hm
   simp_all
 
-/-- clashes: two headings with the same keyword are resolved by the iteration order of the key set
-    (the later one wins), so the answer depends on that order — in CPython on the string hash seed -/
-theorem keyword_clash_order_dependent :
+/-- the rule before fix 1e9b608 (the table over the key set in hash order, nothing else) was order
+    dependent: the keyword `a_b` named `a_b` in one order and `a b` in the other -/
+theorem old_txkeys_rule_witness :
     dictGet (txKeysOf ["a b".toList, "a_b".toList]) "a_b".toList = some "a_b".toList ∧
-    dictGet (txKeysOf ["a_b".toList, "a b".toList]) "a_b".toList = some "a b".toList := by decide
+    dictGet (txKeysOf ["a_b".toList, "a b".toList]) "a_b".toList = some "a b".toList ∧
+    txKeysFix ["a b".toList, "a_b".toList] = txKeysFix ["a_b".toList, "a b".toList] := by decide
 
 /-- repeated searches on the same `parent`: whatever the cache holds after earlier calls on the same
     rows (nothing, or the table built from the key set), every call answers like an uncached search -/
-theorem cached_search_eq (table : List (Str × Matcher)) (order : List Str) (rows : List Row)
-    (cache : Option Dict) (hc : cache = none ∨ cache = some (txKeysOf order)) (kwargs : List (Str × Str)) :
-    (keywordSearchCached table cache order rows kwargs).1 = keywordSearchTx table (txKeysOf order) rows kwargs ∧
-    ((keywordSearchCached table cache order rows kwargs).2 = none ∨
-     (keywordSearchCached table cache order rows kwargs).2 = some (txKeysOf order)) := by
+theorem cached_search_eq (table : List (Str × Matcher)) (keys : List Str) (rows : List Row)
+    (cache : Option Dict) (hc : cache = none ∨ cache = some (txKeysFix keys)) (kwargs : List (Str × Str)) :
+    (keywordSearchCached table cache keys rows kwargs).1 = keywordSearchTx table (txKeysFix keys) rows kwargs ∧
+    ((keywordSearchCached table cache keys rows kwargs).2 = none ∨
+     (keywordSearchCached table cache keys rows kwargs).2 = some (txKeysFix keys)) := by
   unfold keywordSearchCached
   cases hb : (kwargs.isEmpty || rows.isEmpty) with
   | true =>
@@ -459,15 +507,15 @@ theorem cached_search_eq (table : List (Str × Matcher)) (order : List Str) (row
   | false =>
     rcases hc with rfl | rfl <;> simp
 
-theorem cached_sequence_eq (table : List (Str × Matcher)) (order : List Str) (rows : List Row) :
-    ∀ (kws : List (List (Str × Str))) (cache : Option Dict), (cache = none ∨ cache = some (txKeysOf order)) →
-      keywordSearchSeq table order rows cache kws = kws.map (keywordSearchTx table (txKeysOf order) rows) := by
+theorem cached_sequence_eq (table : List (Str × Matcher)) (keys : List Str) (rows : List Row) :
+    ∀ (kws : List (List (Str × Str))) (cache : Option Dict), (cache = none ∨ cache = some (txKeysFix keys)) →
+      keywordSearchSeq table keys rows cache kws = kws.map (keywordSearchTx table (txKeysFix keys) rows) := by
   intro kws
   induction kws with
   | nil => intro _ _; rfl
   | cons kw rest ih =>
     intro cache hc
-    obtain ⟨h1, h2⟩ := cached_search_eq table order rows cache hc kw
+    obtain ⟨h1, h2⟩ := cached_search_eq table keys rows cache hc kw
     simp only [keywordSearchSeq, List.map_cons, h1]
     rw [ih _ h2]
 
